@@ -231,8 +231,9 @@ class _AbstractOrderedSet(AbstractSet[T], Sequence[T]):  # noqa: PLW1641
             The symmetric difference.
         """
         cls = self.__class__
-        diff1 = cls(self).difference(other)
-        diff2 = cls(other).difference(self)
+        other_items = cls(other)  # iterate `other` exactly once: it may be a one-shot iterator
+        diff1 = cls(self).difference(other_items)
+        diff2 = other_items.difference(self)
         return diff1.union(diff2)
 
 
@@ -298,6 +299,7 @@ class OrderedSet(_AbstractOrderedSet[T], MutableSet[T]):
         Args:
             other: The other set.
         """
+        other = tuple(other)  # iterate `other` exactly once: it may be a one-shot iterator
         items_to_add = [item for item in other if item not in self]
         items_to_remove = cast("set[T]", set(other))
         self._items = {item: None for item in self._items if item not in items_to_remove}
